@@ -1,7 +1,7 @@
 #!/bin/bash
 # tools/run_all.sh [tier] : run every registered check in sequence, summarise
 TIER="${1:-quick}"
-cd /verif
+cd "$(dirname "$0")/.."
 for id in $(python3 -c "import json; print(' '.join(c['property_id'] for c in json.load(open('MANIFEST.json'))['checks']))"); do
   s=$(date +%s)
   ./check $id --tier $TIER > /tmp/runall_$id.log 2>&1
